@@ -11,3 +11,32 @@ class B(A):
 
 class C(object):
     pass
+
+
+class Cell(object):
+    """items of container traits declared as Instance("...Cell"): cell number n stands for the item n of the
+    specifications; a Cell equals (and hashes like) its number, so a number finds it in a list, dict or set"""
+
+    def __init__(self, n):
+        self.n = n
+
+    def _num(self, other):
+        return other.n if isinstance(other, Cell) else other
+
+    def __eq__(self, other):
+        return isinstance(other, (Cell, int)) and not isinstance(other, bool) and self.n == self._num(other)
+
+    def __ne__(self, other):
+        return not self.__eq__(other)
+
+    def __hash__(self):
+        return hash(self.n)
+
+    def __lt__(self, other):
+        return self.n < self._num(other)
+
+    def __gt__(self, other):
+        return self.n > self._num(other)
+
+    def __repr__(self):
+        return "Cell(%d)" % self.n
